@@ -198,14 +198,19 @@ class Sim:
         early_wake_budget: float = 1.0,
         uuid_salt: str = "0",
         t0: float = 1_700_000_000.0,
+        tick: float = 0.0,
     ) -> None:
         self.chooser = chooser
         self.trace_suffixes = tuple(trace_suffixes)
         self.max_steps = max_steps
         self.early_wake_budget = early_wake_budget
+        self.early_wake_max = 0.05
         self.uuid_salt = uuid_salt
         self.now = t0
         self.t0 = t0
+        # every seam call takes `tick` seconds of virtual time (0 = time only advances when
+        # nothing is runnable); a few microseconds make clock reads of one call differ
+        self.tick = tick
         self.seq = 0  # global event sequence number
         self.switches = 0
         self.line_events = 0
@@ -344,6 +349,8 @@ class Sim:
         t.nyield += 1
         self.seam_events += 1
         self.seq += 1
+        if self.tick:
+            self.now += self.tick
         if self.seq > self.max_steps:
             self._cap()
         if self.fault_hook is not None:
@@ -375,7 +382,9 @@ class Sim:
                 if not t.blocked() and not (t.wake is not None and t.wake <= now):
                     continue
             elif t.wake is not None and t.wake > now:
-                if t.wake - now > self.early_wake_budget:
+                # only short sleeps (back-off loops) may be cut short, and only within a total
+                # budget: a runnable task is never overtaken by more than early_wake_max at once
+                if t.wake - now > min(self.early_wake_budget, self.early_wake_max):
                     continue  # else: early-wakeable sleeper
             out.append(t)
         return out
